@@ -87,5 +87,10 @@ SchemaClauses(doc) ==
       sv_keys |-> \A i \in DOMAIN doc.svs : SeqSet(doc.svs[i].keys) \subseteq {"StartTime", "Multiplier"},
       sv_types |-> \A i \in DOMAIN doc.svs : doc.svs[i].st.tag \in {"int", "float", "absent"}
                                             /\ doc.svs[i].mult.tag \in {"int", "float", "absent"},
-      meta_types |-> \A k \in StrFields \cap DOMAIN doc.meta : doc.meta[k].tag = "str" ]
+      meta_types |-> \A k \in StrFields \cap DOMAIN doc.meta : doc.meta[k].tag = "str",
+      \* every lane exists in the key mode the document declares
+      lanes_in_mode |-> ("Mode" \in DOMAIN doc.meta /\ doc.meta["Mode"].tag = "str") =>
+                          LET km == doc.meta["Mode"].str
+                              nk == IF km = "Keys4" THEN 4 ELSE IF km = "Keys7" THEN 7 ELSE IF km = "Keys8" THEN 8 ELSE 0 IN
+                          \A i \in DOMAIN doc.objs : Val(doc.objs[i].lane, 1000) >= 1000 /\ Val(doc.objs[i].lane, 1000) <= nk * 1000 ]
 =============================================================================
